@@ -1,11 +1,19 @@
 (* C20 — Diagnostics point at the right place and always terminate.  Statements only. *)
-From SV Require Import Base Regex Diag DiagFacts LineFacts.
+From SV Require Import Base Regex Diag DiagFacts LineFacts PrettyFacts.
 
 (* the debug pretty-printer terminates on EVERY string (hence on every repr of a compiled selector):
    each of its REGENERATED token patterns consumes at least one character and the loop has a fallback *)
 Theorem C20_pretty_terminates : forall sel, exists out, pretty sel = Some out.
 Proof. exact pretty_total. Qed.
 Print Assumptions C20_pretty_terminates.
+
+(* ... and only inserts / removes white space: for EVERY string, the output and the input are equal once the characters of
+   the class \s (as it occurs in the REGENERATED separator patterns RE_SEP / RE_DSEP) are removed from both.  The proof
+   reads off what those two patterns match (white space, the separator captured as group 1, white space); every other
+   token is copied verbatim whatever it matches, and so is a character no token matches. *)
+Theorem C20_pretty_content : forall sel out, pretty sel = Some out -> nows out = nows sel.
+Proof. exact pretty_content. Qed.
+Print Assumptions C20_pretty_content.
 
 (* The context function: for EVERY string s and EVERY offset i <= |s| the line and column reported by
    get_pattern_context s i are those of the specification line_col (line = 1 + number of line breaks wholly before the
